@@ -203,12 +203,16 @@ def cases(ctx):
     yield "attribute-references", gen.free_model([OP("IMPLIES", T("A.x"), T("A.y")), OP("NOT", T("A.z")), OP("OR", T("B"), T("'lit'"))],
                                                  names=("A", "B"))
     yield "attribute-references", gen.free_model([OP("REQUIRES", T("A.x"), T("C.y")), OP("EXCLUDES", T("B.x"), T("B.y"))], names=("A",))
+    # features whose names are digits only (ASCII, Arabic-Indic, a superscript): names, not numbers
+    digit_names = ("2024", "\u0663\u0662", "\u00b2", "v1")
+    yield "digit-names", gen.free_model([OP("IMPLIES", T("2024"), T("v1")), OP("EXCLUDES", T("\u0663\u0662"), T("2024")),
+                                         OP("OR", T("\u00b2"), OP("NOT", T("v1")))], names=digit_names)
     yield "twins", dict(root=spec.F("App", [spec.R(1, 1, [spec.F("log")]), spec.R(0, 1, [spec.F("Log")]),
                                             spec.R(1, 1, [spec.F("Ab"), spec.F("aB")])]), ctcs=[])
     for i in range(200 if ctx.tier == "quick" else 3000):
         n = g.rng.choice([1, 2, 3, 5, 9, 14]) if ctx.tier == "quick" else g.rng.choice([1, 2, 5, 12, 40, 150])
         m = g.model(n, kinds=kinds, ctc_depth=2, abstract=True, typed=True, fcard=True,
-                    name_classes=("plain", "space", "keyword", "nonascii", "punct"))
+                    name_classes=("plain", "space", "keyword", "nonascii", "punct", "lead"))
         yield "random", m
 
 
